@@ -9,7 +9,6 @@ from harness import core, predgen
 ID = 'C40'
 TITLE = 'Predicate formula parse trees are faithful'
 PROPS = ['Props/C40']
-DISABLED = True
 RULE = ('formulas are generated as TEXT from a grammar over every supported node kind (and/or with 2-4 operands, not, '
         '+ - * / %, the ten comparison operators, rec./$/user./choice. attribute chains, names, int/float/str/bool/None '
         'literals in many spellings, lists, tuples, calls with positional and keyword arguments, nesting to depth 4, '
@@ -33,6 +32,9 @@ ASSUMPTIONS = ['convert_faithful: membership (in / not in) gives the same answer
                'elements (hypothesis membership_ignores_tuple; proved for CSem); tuples elsewhere are outside in_subset',
                'in_subset excludes Name nodes spelled True/False/None (never produced by the parser; monitored) and '
                '__debug__ (a compile-time constant in Python)',
+               'in_subset excludes calls that repeat a keyword name (f(k=1, k=2)): ast.parse and the converter accept them '
+               'but the CPython compiler rejects them ("keyword argument repeated"), so they have no Python meaning; they '
+               'are generated, compared with the model, and reported in the histogram, not as findings',
                'evaluation is pure: primitive operations are functions of their arguments']
 TECHNIQUE = ('Coq proof over a hand-written executable model of TreeConverter on a Coq mirror of the Python AST + '
              'differential cases against the running code (vm_compute) + implementation-side oracle (CPython eval vs '
